@@ -44,8 +44,10 @@ def gen_case(rng, idx, tier):
     opts = dict(nd=nd, tfm=tfm, full=full, mn=mn, periodic=periodic0,
                 maxforce=(rng.choice([None, 2.0, 0.5]) if rng.random() < 0.3 else None),
                 apply=(rng.random() > 0.12),
-                other=(rng.choice(["harmonic", "harmonic_sub", None]) if nd == 1 else None),
+                other=(rng.choice(["harmonic", "harmonic_sub", "walls_sub", None]) if nd == 1 else None),
                 newruns=(rng.random() < 0.5))
+    if opts["other"] == "walls_sub" and periodic0:
+        opts["other"] = "harmonic_sub"
     T = 70 if tier == "quick" else 160
     dims = []
     names = ["d2", "d3", "d1"][:nd]
@@ -85,7 +87,7 @@ def config(case):
     cfg = ""
     for d in case["dims"]:
         extra = ""
-        if case["other"] == "harmonic_sub" and d.name == "d2":
+        if case["other"] in ("harmonic_sub", "walls_sub") and d.name == "d2":
             extra = "  subtractAppliedForce on\n"
         if d.name == "d2":
             cv_extra = "    period 8.0\n" if d.periodic else ""
@@ -102,7 +104,11 @@ def config(case):
     if case.get("jac") == "hide":
         cfg += "  hideJacobian on\n"
     cfg += "}\n"
-    if case["other"]:
+    if case["other"] == "walls_sub":
+        # a second bias of another type whose force reaches the atoms by its own route (walls act on the actual coordinate),
+        # non-zero inside the ABF grid
+        cfg += "harmonicWalls {\n  colvars d2\n  lowerWalls -2.0\n  upperWalls 1.5\n  forceConstant 2.0\n}\n"
+    elif case["other"]:
         cfg += "harmonic {\n  colvars d2\n  centers 1.0\n  forceConstant 0.5\n}\n"
     return cfg
 
@@ -220,7 +226,7 @@ def check_case(c, case, ev, sp):
         if not ok:
             offgrid += 1
         s_now = [sv_[t] for sv_ in case["s"]]
-        if (not repeated and case["tfm"] == "prev" and case["other"] == "harmonic_sub" and e["rel"] > 0
+        if (not repeated and case["tfm"] == "prev" and case["other"] in ("harmonic_sub", "walls_sub") and e["rel"] > 0
                 and prev is not None and prev[1][0] + prev[4] == 0.0):
             # the raw total force on the variable is exactly zero (physical force and Colvars' own
             # force cancel): Colvars decides from ft.norm2() > 0 whether a total force was measured
@@ -274,7 +280,7 @@ def check_case(c, case, ev, sp):
                 return False
         # harmonic force on d2 at this step (dyadic: exact)
         other_f = 0.0
-        if case["other"]:
+        if case["other"] and case["other"] != "walls_sub":
             w = dims[0].w
             diff = vals[0] - 1.0
             if dims[0].periodic:
